@@ -25,7 +25,7 @@ fn spec() -> Spec {
             Kind { name: "congruence", quick: 200_000, thorough: 5_000_000, serial: false },
             Kind { name: "forward_transformed", quick: 150_000, thorough: 4_000_000, serial: false },
         ],
-        rule: "rigid: random triangles (side 1e-2..1e2 m, angle at p1 with sin >= 1e-6, up to 1e3 m from the origin) x random rigid motions incl. rotations next to 180 degrees: result Ok, proper, maps p_i to q_i, equals the generating motion. collinear: p3 = p1 + t*(p2-p1) evaluated in floating point and exactly representable integer cases, sources and targets: Err(ColinearPoints) with the right flag. congruence: one pairwise distance changed by >= 5 mm + 1e-9 => Err(NotIsometry), by <= 5 mm - 1e-9 => Ok and still a proper rigid map with p1 -> q1. forward_transformed: pose == frame*FK(q), every solution realises it, list ordered by closeness to previous. Frame::translation: pure shift q-p. non-trivial = rotation angle > 1e-3 (rigid) / conclusive rejection; distinct = hash(points)",
+        rule: "rigid: random triangles (side 1e-2..1e2 m, angle at p1 with sin >= 1e-6, up to 1e3 m from the origin) x random rigid motions incl. rotations next to 180 degrees: result Ok, proper, maps p_i to q_i, equals the generating motion. collinear: p3 = p1 + t*(p2-p1) evaluated in floating point and exactly representable integer cases, sources and targets: Err(ColinearPoints) with the right flag. congruence: one pairwise distance changed by >= 5 mm + 1e-9 => Err(NotIsometry), by <= 5 mm - 1e-9 => Ok and still a proper rigid map with p1 -> q1. forward_transformed: pose == frame*FK(q), every solution realises it, list ordered by closeness to previous. Frame::translation: pure shift q-p. non-trivial = rotation angle > 1e-3 (rigid) / conclusive rejection; distinct = hash(points) Workload additions: coincident source / target points; forward_transformed with the CONSTRAINT_CENTERED sentinel as previous.",
         assumptions: vec![
             "sin(angle at p1) between 1e-12 and 1e-6: either outcome accepted, but an Ok result must be a proper rotation mapping p1 to q1",
             "mapping tolerance 1e-9*scale/sin(angle) + 1e-12*|offset|",
@@ -339,7 +339,18 @@ fn forward_transformed(idx: u64, rng: &mut Rng, mon: &mut Mon) {
     let kin = Arc::new(OPWKinematics::new(to_params(&rp)));
     // small frames keep the moved pose reachable in a good share of cases
     let fr = if rng.bool(0.7) { Fr { r: axis_angle(unit(rng), rng.range(-0.3, 0.3)), p: [rng.range(-0.1, 0.1), rng.range(-0.1, 0.1), rng.range(-0.1, 0.1)] } } else { random_fr(rng, 0.5) };
-    let frame = Frame { robot: kin.clone(), frame: fr_to_iso(&fr) };
+    // a quarter of the frames wraps a robot that is itself a Frame (rotation about a pivot off the origin): the
+    // inner frame acts like a tool on the wrapped robot, forward and inverse of it must agree
+    let inner: Option<Fr> = if rng.bool(0.25) { Some(Fr { r: axis_angle(unit(rng), rng.range(-1.0, 1.0)), p: [rng.range(-0.2, 0.2), rng.range(-0.2, 0.2), rng.range(-0.2, 0.2)] }) } else { None };
+    let wrapped: Arc<dyn rs_opw_kinematics::kinematic_traits::Kinematics> = match &inner {
+        Some(fi) => {
+            mon.count("forward_transformed.frame_wrapping_a_frame");
+            Arc::new(Frame { robot: kin.clone(), frame: fr_to_iso(fi) })
+        }
+        None => kin.clone(),
+    };
+    let tip = |s: &[f64; 6]| match &inner { Some(fi) => fk(&rp, s).mul(fi), None => fk(&rp, s) };
+    let frame = Frame { robot: wrapped, frame: fr_to_iso(&fr) };
     let q = joints_uniform(rng, PI);
     // previous: q itself, anything, or the CONSTRAINT_CENTERED sentinel (without limits: closeness to zeros)
     let pk = rng.usize(20);
@@ -351,10 +362,10 @@ fn forward_transformed(idx: u64, rng: &mut Rng, mon: &mut Mon) {
     if sentinel {
         mon.count("forward_transformed.sentinel_previous");
     }
-    let want = fr.mul(&fk(&rp, &q));
+    let want = fr.mul(&tip(&q));
     let got = iso_to_fr(&pose);
     let reach = rp.reach() + norm(fr.p);
-    let detail = |what: &str, extra: serde_json::Value| json!({"robot": robot_json(&robot), "frame": {"r": fr.r, "p": fr.p}, "q": jf(&q), "prev": jf(&prev_given), "clause": what, "extra": extra});
+    let detail = |what: &str, extra: serde_json::Value| json!({"robot": robot_json(&robot), "frame": {"r": fr.r, "p": fr.p}, "inner_frame": inner.map(|f| json!({"r": f.r, "p": f.p})), "q": jf(&q), "prev": jf(&prev_given), "clause": what, "extra": extra});
     if !(pos_dist(&got, &want) <= 1e-11 * (1.0 + reach) && rot_angle(&got.r, &want.r) <= 1e-11) {
         mon.violation("forward-transformed:pose", "returned pose is not frame * FK(q)", detail("pose", json!({"dp": pos_dist(&got, &want)})));
     } else {
@@ -366,8 +377,8 @@ fn forward_transformed(idx: u64, rng: &mut Rng, mon: &mut Mon) {
     }
     let mut ok = true;
     for s in &sols {
-        let g = fk(&rp, s);
-        if !(pos_dist(&g, &want) <= 1e-6 + 1e-9 + 1e-12 * reach && rot_angle(&g.r, &want.r) <= 1e-6 + 1e-9) {
+        let g = tip(s);
+        if !(pos_dist(&g, &want) <= 1e-6 * (1.0 + inner.map(|f| norm(f.p)).unwrap_or(0.0)) + 1e-9 + 1e-12 * reach && rot_angle(&g.r, &want.r) <= 1e-6 + 1e-9) {
             ok = false;
             mon.violation("forward-transformed:solution-does-not-realise-pose", "a returned joint solution does not realise the frame-moved pose", detail("solutions", json!({"solution": jf(s)})));
         }
